@@ -21,6 +21,9 @@ var c11FaultExprs = []string{
 	"\"x\"()", "[1]()", "null()", "(1).upper()", "fo.nosuch()",
 	"printf(\"%q\", 1)", "printf(\"%5\", 1)", "printf(\"%s %s\", 1)", "printf(1)",
 	"(\"a\" ~ \"[z-a]\")", "(\"a\" !~ \"(?<\")", "$0", "\"a\".split()", "json()",
+	// regexes whose only defect is a counted repetition; printf directives with a flag but no width, unknown flags, precision
+	"(\"a\" ~ \"a{2,1}\")", "(\"a\" ~ /a{1001}/)", "(\"x\" !~ \"b{3,2}\")", "printf(\"%-s\", \"a\")", "printf(\"%-f\", 1)", "printf(\"%-v\", 1)", "printf(\"%-%\")",
+	"printf(\"%+s\", \"a\")", "printf(\"%.2f\", 1)", "printf(\"%5.2f\", 1)", "printf(\"%*s\", 1, \"a\")",
 	// arguments a method must refuse
 	"fo.pluck(true)", "fo.pluck(null)", "fo.pluck([1])", "fo.pluck(uqnever)", "garr.push(1, 2)", "garr.pop(1)", "\"a\".split(1)",
 	// a container compared with itself; a malformed regex at a site that has already matched with a good one
@@ -38,6 +41,8 @@ var c11Shapes = []string{
 // statement-level faults that are not an expression in a slot
 var c11StmtFaults = []string{
 	"for (q in [\"b\", \"(\"]) { fx = \"ab\" ~ q }", "for (q in [garr, 1]) { fx = q == q }",
+	// division by zero in every spelling
+	"sc /= 0", "sc /= (sc - 1)", "fo.z /= 0", "garr[0] /= \"0\"", "sc /= null", "fx = (sc /= 0)", "sc = sc / 0", "sc = sc % 0",
 	"for (q in 5) { }", "for (q in null) { }", "sc.k = 2", "sc.y++", "fx = --sc.y", "garr[0 - 9] = 1", "garr[2000000] = 1", "sc.k.l = 1", "fx = garr[0 - 9]",
 	// a literal that fails when evaluated, as a match pattern: top level, inside an array pattern, nested, as a later alternative
 	"fx = match (\"x\") { \"a\\q\" => 0 }", "fx = match ([\"x\"]) { [\"a\\q\"] => 0 }", "fx = match ([[\"x\"]]) { [[\"a\\q\"]] => 0 }",
